@@ -54,12 +54,19 @@ class Session:
         self.prop = trace["prop"]
         self.res = res
         self.U = Universe(trace["universe"])
-        self.net = M.Network(name="net")
-        self.model = RefNet()
+        # one or two networks built from the *same* element objects (sharing elements between
+        # networks is legal); every op addresses one of them ("net": 0 | 1)
+        n_nets = 2 if trace.get("cfg", {}).get("two_networks") else 1
+        self.nets = [M.Network(name=f"net{i}") for i in range(n_nets)]
+        self.models = [RefNet() for _ in range(n_nets)]
+        self.was_valids = [None] * n_nets
+        self.cur = 0
         self.mutated = False
-        self.cached_before_mutation: set = set()
-        self.was_valid = None
         self.op_index = -1
+
+    net = property(lambda self: self.nets[self.cur])
+    model = property(lambda self: self.models[self.cur], lambda self, m: self.models.__setitem__(self.cur, m))
+    was_valid = property(lambda self: self.was_valids[self.cur], lambda self, v: self.was_valids.__setitem__(self.cur, v))
 
     # -- ground truth straight from networkx -------------------------------------------
     def G(self):
@@ -414,6 +421,7 @@ class Session:
         res.n_ops = len(ops)
         for i, op in enumerate(ops):
             self.op_index = i
+            self.cur = op.get("net", 0) if len(self.nets) > 1 else 0
             k = op["op"]
             fk = op["fault"]["kind"] if op.get("fault") else "-"
             try:
@@ -441,21 +449,24 @@ class Session:
                 res.violation = {"check": v.check, "detail": v.detail, "op_index": i}
                 res.log(i, k, fk, "VIOLATION", v.check)
                 return
-            res.sig.append((k, fk, outcome))
+            res.sig.append((k, fk, outcome, self.cur))
             res.log(i, k, fk, outcome, core.H(self.graph_signature()))
             res.states.add(core.H(self.model_shape()))
         # quiescent phase (bounded liveness: after the last fault everything is coherent
         # within one operation): every lookup once, one validation of each kind
         try:
-            if self.prop == "C08":
-                for w in LOOKUPS:
-                    self.read(w, "quiescent")
-            elif self.prop == "C06":
-                self.validate(False, "quiescent")
-                self.validate(True, "quiescent")
-            elif self.prop == "C09":
-                if self.model.signature() != self.real_as_refnet_signature():
-                    raise Violation("C09/graph-mismatch-final", "final graph differs from the model")
+            for self.cur in range(len(self.nets)):
+                q = "quiescent" if self.cur == 0 else "quiescent (second network)"
+                if self.prop == "C08":
+                    for w in LOOKUPS:
+                        self.read(w, q)
+                elif self.prop == "C06":
+                    self.validate(False, q)
+                    self.validate(True, q)
+                elif self.prop == "C09":
+                    if self.model.signature() != self.real_as_refnet_signature():
+                        raise Violation("C09/graph-mismatch-final", f"{q}: final graph differs from the model")
+            self.cur = 0
         except Violation as v:
             res.violation = {"check": v.check, "detail": v.detail, "op_index": len(ops)}
             res.log(len(ops), "quiescent", "-", "VIOLATION", v.check)
@@ -962,7 +973,29 @@ def generate(prop: str, run_seed: int, tier: str = "quick") -> dict:
             for rop in gen_repair_ops(rng, U, model):
                 push(rop)
                 sprinkle()
-    return {"prop": prop, "run_seed": run_seed, "universe": U, "cfg": {"enabled": sorted(enabled), "topology": topo}, "ops": final}
+    cfg = {"enabled": sorted(enabled), "topology": topo}
+    if rng.random() < 0.25:
+        # a second network over the same element objects receives part of the traffic
+        cfg["two_networks"] = True
+        model2 = RefNet()
+        out = []
+        for op in final:
+            out.append(op)
+            r = rng.random()
+            if r < 0.35:
+                if op["op"] in MUTATORS and rng.random() < 0.6:
+                    o2 = dict(op, net=1)  # the same call (same objects) on the other network
+                    o2.pop("fault", None)
+                elif op["op"] in MUTATORS:
+                    o2 = dict(gen_chaos_op(rng, U, model2), net=1)
+                else:
+                    o2 = dict(op, net=1)
+                if o2["op"] in MUTATORS:
+                    for e in effects(o2):
+                        model2.apply_effect(e)
+                out.append(o2)
+        final = out
+    return {"prop": prop, "run_seed": run_seed, "universe": U, "cfg": cfg, "ops": final}
 
 
 # --------------------------------------------------------------------------------------
